@@ -15,16 +15,32 @@ import sys
 import time
 
 VERIF = os.path.dirname(os.path.dirname(os.path.abspath(__file__)))
-REPO = "/repo"
+MAIN_REPO = "/repo"
+# own mutants are applied to a scratch git worktree of /repo (checks are pointed at it with VF_REPO), so /repo itself stays clean
+REPO = os.environ.get("MUT_WT") or "/tmp/mutwt_%d" % os.getpid()
 SPECS = os.path.join(VERIF, "mutants", "specs.json")
-BASE = ["/venv/bin/python", "-m", "pytest", "-q", "-x", "-p", "no:cacheprovider", "--timeout=900"]
+BASE = ["/venv/bin/python", "-B", "-m", "pytest", "-q", "-p", "no:cacheprovider", "--timeout=900"]
 
 
 def sh(cmd, **kw):
     return subprocess.run(cmd, capture_output=True, text=True, **kw)
 
 
+def ensure_wt():
+    if not os.path.isdir(os.path.join(REPO, "simple_ddl_parser")):
+        r = sh(["git", "-C", MAIN_REPO, "worktree", "add", "--detach", REPO, "HEAD"])
+        if r.returncode:
+            raise SystemExit("cannot create scratch worktree: " + r.stderr)
+
+
+def drop_wt():
+    sh(["git", "-C", MAIN_REPO, "worktree", "remove", "--force", REPO])
+    import shutil
+    shutil.rmtree(REPO, ignore_errors=True)
+
+
 def clean():
+    ensure_wt()
     r = sh(["git", "-C", REPO, "status", "--porcelain"])
     return r.stdout.strip() == ""
 
@@ -44,13 +60,13 @@ def apply_spec(spec):
 
 
 def run_tests():
-    r = sh(BASE, cwd=REPO)
+    r = sh(BASE, cwd=REPO, env=dict(os.environ, PYTHONPATH=REPO))
     tail = r.stdout.strip().splitlines()[-1] if r.stdout.strip() else r.stderr[-200:]
     return r.returncode == 0, tail
 
 
 def run_check(prop, tier, seed=None):
-    env = dict(os.environ)
+    env = dict(os.environ, VF_REPO=REPO)
     if seed is not None:
         env["VERIF_SEED"] = str(seed)
     t0 = time.time()
@@ -89,12 +105,30 @@ def main(argv):
         i = argv.index("--prop")
         only = argv[i + 1]
         del argv[i:i + 2]
+    sl = None
+    if "--slice" in argv:
+        i = argv.index("--slice")
+        sl = tuple(map(int, argv[i + 1].split("/")))
+        del argv[i:i + 2]
+    if argv[0] == "merge":
+        import glob
+        allres = {}
+        for f in sorted(glob.glob(os.path.join(VERIF, "mutants", "RESULTS.*.json"))):
+            allres.update(json.load(open(f)))
+            os.remove(f)
+        old = os.path.join(VERIF, "mutants", "RESULTS.json")
+        base = json.load(open(old)) if os.path.exists(old) else {}
+        base.update(allres)
+        json.dump(base, open(old, "w"), indent=1, sort_keys=True)
+        print(len(base), "results")
+        return 0
     if argv[0] == "patch":
         diff, prop = argv[1], argv[2]
         tier = argv[3] if len(argv) > 3 else "quick"
         if not clean():
             raise SystemExit("/repo is not clean; refusing")
         try:
+            ensure_wt()
             r = sh(["git", "-C", REPO, "apply", os.path.abspath(diff)])
             if r.returncode:
                 raise SystemExit("patch does not apply: " + r.stderr)
@@ -118,9 +152,17 @@ def main(argv):
             tier = argv[1]
         if only:
             specs = [s for s in specs if only in s["props"]]
+    if sl:
+        specs = [s for k, s in enumerate(specs) if k % sl[1] == sl[0]]
     missed = 0
+    resp = os.path.join(VERIF, "mutants", "RESULTS.%s.json" % (sl[0] if sl else "x"))
+    allres = json.load(open(resp)) if os.path.exists(resp) else {}
     for s in specs:
         o = one(s, tier, tests)
+        allres[o["id"]] = {"note": s.get("note", ""), "tests": o.get("tests", allres.get(o["id"], {}).get("tests", "-")), "tier": tier,
+                           "checks": {p: {"rc": c["rc"], "verdict": {1: "CAUGHT", 0: "not caught", 2: "INCONCLUSIVE"}.get(c["rc"], str(c["rc"])),
+                                          "first": (c["out"][1].strip() if len(c["out"]) > 1 else (c["out"][0] if c["out"] else ""))[:200]} for p, c in o["checks"].items()}}
+        json.dump(allres, open(resp, "w"), indent=1, sort_keys=True)
         for prop, c in o["checks"].items():
             status = {1: "CAUGHT", 0: "MISSED", 2: "INCONCLUSIVE"}.get(c["rc"], "rc=%s" % c["rc"])
             if c["rc"] != 1:
@@ -128,6 +170,7 @@ def main(argv):
             print("%-34s %-4s %-12s %5.1fs tests=%s  %s" % (o["id"], prop, status, c["wall"], o.get("tests", "-"), (c["out"][1] if len(c["out"]) > 1 else (c["out"][0] if c["out"] else ""))[:160]))
         sys.stdout.flush()
     print("not caught:", missed)
+    drop_wt()
     return 0
 
 
